@@ -39,6 +39,9 @@ def make_classes():
         "c": param.Number(default=5, bounds=(-1000, 1000), allow_refs=True, constant=True),
         "r": param.Number(default=6, readonly=True, allow_refs=True),
         "p": param.Integer(default=1, bounds=(0, 10)),
+        "q": param.Integer(default=2, bounds=(0, 10)),
+        # a parameter made of two others: assigning it assigns them
+        "pq": param.Composite(attribs=["p", "q"]),
         # validation of this one has an effect of its own (check_on_set=False adds the value to the objects)
         "sel": param.Selector(objects=[1, 2], check_on_set=False, constant=True),
     })
